@@ -107,7 +107,8 @@ where
             index: HashMap::new(),
             blocks: VecDeque::with_capacity(size),
             tx_in_block: HashMap::new(),
-            tip: height,
+            // `update` moves the tip one block forward for every block added, so we start `size` blocks behind `height`.
+            tip: height - size as u32,
             size,
         };
 
@@ -179,10 +180,12 @@ where
 
         self.tx_in_block.insert(block_header.block_hash(), ks);
 
+        // The new block is the new tip of the index.
+        self.tip += 1;
+
         if self.is_full() {
             // Avoid logging during bootstrap
             log::debug!("New block added to index: {}", block_header.block_hash());
-            self.tip += 1;
             self.remove_oldest_block();
         }
     }
@@ -194,6 +197,8 @@ where
 
             // Blocks should be disconnected from last backwards. Log if that's not the case so we can revisit this and fix it.
             if let Some(ref h) = self.blocks.pop_back() {
+                // The tip of the index moves back with the disconnected block.
+                self.tip -= 1;
                 if h != block_hash {
                     log::error!("Disconnected block does not match the oldest block stored in the TxIndex ({block_hash} != {h})");
                 }
